@@ -1029,6 +1029,25 @@ func (s *fatSys) apply(op fsOp) (err error, viols []explore.Viol) {
 			}
 		}
 		return nil, viols
+	case "fillgeo":
+		// fill a larger volume to its last cluster with a handful of writes: files of geometrically decreasing size, each
+		// size tried until the filesystem refuses it (refusals are part of the sequence)
+		n := 0
+		for _, ln := range []string{"p40", "p15", "256c", "64c", "16c", "4c", "c"} {
+			for k := 0; k < 8; k++ {
+				name := fmt.Sprintf("%s%03d", op.Path, n)
+				n++
+				e, _ := s.apply(fsOp{Kind: "write", Path: name, Off: "0", Len: ln})
+				if e != nil {
+					if live, verr := fsView(s.fs, s.model.caseFold, 4096, 1<<25); verr == nil {
+						s.resync(live, name)
+					}
+					break
+				}
+			}
+		}
+		s.shRefused = nil
+		return nil, viols
 	case "fragfill":
 		// prepared state with fragmented free space: numbered files of op.Len bytes until the filesystem refuses, then
 		// every other one is removed, so the largest free run is one such file (plus whatever was too small to use)
